@@ -235,16 +235,116 @@ def unit1(name):
 '''
 
 
+def unit3tab(name, zsign=("p", "p")):
+    """3D core patterns: the whole tables are traced (unit `dect_<name>`)"""
+    tp, vp = theta_vals(3, name, True, zsign)
+    tn, vn = theta_vals(3, name, False, zsign)
+    M = "⟨m00, m01, m02, m10, m11, m12, m20, m21, m22⟩"
+    U = "Gen.N3_dect_%s" % name
+    return f'''/-- tables `dpp`, `dnp` (36 numbers each) and parts `pp`, `np` of
+`computeStensorDecompositionInPositiveAndNegativeParts` for the decision pattern `{name}` -/
+theorem N3_dect_{name} (hc : c * c = 2)
+    (s0 s1 s2 s3 s4 s5 eps l0 l1 l2 m00 m01 m02 m10 m11 m12 m20 m21 m22 : K)
+    (hl0 : solvp fn "vp0" {S6} = l0) (hl1 : solvp fn "vp1" {S6} = l1) (hl2 : solvp fn "vp2" {S6} = l2)
+    (hM : solM3 fn {S6} = {M}) :
+    {U}_all c c3 fn s0 s1 s2 s3 s4 s5 eps
+      = DK3 c {M} (M3.sym {" ".join(tp)})
+        ++ DK3 c {M} (M3.sym {" ".join(tn)})
+        ++ M3.mandel3 c (iso {M} {" ".join(vp)})
+        ++ M3.mandel3 c (iso {M} {" ".join(vn)}) := by
+  subst hl0 hl1 hl2
+  simp only [solM3, M3.mk.injEq] at hM
+  obtain ⟨rfl, rfl, rfl, rfl, rfl, rfl, rfl, rfl, rfl⟩ := hM
+  simp only [solvp]
+  c05_unfold
+  simp only [List.cons_append, List.nil_append, List.cons.injEq, and_true, true_and, div_eq_mul_inv,
+    c_inv hc two_ne_zero]
+  (repeat' apply And.intro)
+  all_goals (first | ring1 | (ring_nf; (try c_powers hc); (try ring1)))
+
+'''
+
+MEANING_HDR = '''/-! ## reading the tables
+
+For a positive definite tensor (all eigenvalues ≥ eps, pairwise apart) the positive part is the tensor and its
+derivative the identity, the negative part and its derivative vanish; symmetrically for a negative definite
+tensor. (`M` orthogonal, i.e. a valid result of the eigen-solver; `l_i ≠ l_j` follows from the branch condition.)
+The second statement is the one violated by the defect found in the 3D all-distinct branch (`dnp`, term
+`vp(2)/(vp(2)-vp(1))` instead of `vp(2)/(vp(2)-vp(0))`, fixed in /repo b8fe4ffa9).'''
+MEANING_PPP = ''' -/
+theorem N3_dect_dist_ppp_meaning (hc : c * c = 2)
+    (s0 s1 s2 s3 s4 s5 eps l0 l1 l2 m00 m01 m02 m10 m11 m12 m20 m21 m22 h00 h11 h22 h01 h02 h12 : K)
+    (hl0 : solvp fn "vp0" [s0, s1, s2, s3, s4, s5] = l0) (hl1 : solvp fn "vp1" [s0, s1, s2, s3, s4, s5] = l1)
+    (hl2 : solvp fn "vp2" [s0, s1, s2, s3, s4, s5] = l2)
+    (hM : solM3 fn [s0, s1, s2, s3, s4, s5] = ⟨m00, m01, m02, m10, m11, m12, m20, m21, m22⟩)
+    (hO : Orth (⟨m00, m01, m02, m10, m11, m12, m20, m21, m22⟩ : M3 K)) (n01 : l0 ≠ l1) (n02 : l0 ≠ l2) (n12 : l1 ≠ l2) :
+    Gen.N3_dect_dist_ppp_all c c3 fn s0 s1 s2 s3 s4 s5 eps
+      = DK3 c ⟨m00, m01, m02, m10, m11, m12, m20, m21, m22⟩ (M3.sym 1 1 1 1 1 1)
+        ++ DK3 c ⟨m00, m01, m02, m10, m11, m12, m20, m21, m22⟩ (M3.sym 0 0 0 0 0 0)
+        ++ M3.mandel3 c (iso ⟨m00, m01, m02, m10, m11, m12, m20, m21, m22⟩ l0 l1 l2)
+        ++ M3.mandel3 c (iso ⟨m00, m01, m02, m10, m11, m12, m20, m21, m22⟩ 0 0 0)
+    ∧ apply6 (DK3 c ⟨m00, m01, m02, m10, m11, m12, m20, m21, m22⟩ (M3.sym 1 1 1 1 1 1))
+          (M3.mandel3 c (M3.sym h00 h11 h22 h01 h02 h12)) = M3.mandel3 c (M3.sym h00 h11 h22 h01 h02 h12) := by
+  have s01 : l0 - l1 ≠ 0 := sub_ne_zero.mpr n01
+  have s10 : l1 - l0 ≠ 0 := sub_ne_zero.mpr n01.symm
+  have s02 : l0 - l2 ≠ 0 := sub_ne_zero.mpr n02
+  have s20 : l2 - l0 ≠ 0 := sub_ne_zero.mpr n02.symm
+  have s12 : l1 - l2 ≠ 0 := sub_ne_zero.mpr n12
+  have s21 : l2 - l1 ≠ 0 := sub_ne_zero.mpr n12.symm
+  have e01 : l0 / (l0 - l1) + l1 / (l1 - l0) = 1 := by field_simp; ring
+  have e02 : l0 / (l0 - l2) + l2 / (l2 - l0) = 1 := by field_simp; ring
+  have e12 : l1 / (l1 - l2) + l2 / (l2 - l1) = 1 := by field_simp; ring
+  constructor
+  · rw [N3_dect_dist_ppp c c3 fn hc s0 s1 s2 s3 s4 s5 eps l0 l1 l2 m00 m01 m02 m10 m11 m12 m20 m21 m22 hl0 hl1 hl2 hM,
+      e01, e02, e12]
+  · rw [DK3_apply hc]
+    have := dkAct_const hO 1 (M3.sym h00 h11 h22 h01 h02 h12)
+    simp only [M3.sym] at this ⊢
+    rw [this]; congr 1; m3_ri'''
+MEANING_NNN = '''ng
+
+theorem N3_dect_dist_nnn_meaning (hc : c * c = 2)
+    (s0 s1 s2 s3 s4 s5 eps l0 l1 l2 m00 m01 m02 m10 m11 m12 m20 m21 m22 : K)
+    (hl0 : solvp fn "vp0" [s0, s1, s2, s3, s4, s5] = l0) (hl1 : solvp fn "vp1" [s0, s1, s2, s3, s4, s5] = l1)
+    (hl2 : solvp fn "vp2" [s0, s1, s2, s3, s4, s5] = l2)
+    (hM : solM3 fn [s0, s1, s2, s3, s4, s5] = ⟨m00, m01, m02, m10, m11, m12, m20, m21, m22⟩)
+    (n01 : l0 ≠ l1) (n02 : l0 ≠ l2) (n12 : l1 ≠ l2) :
+    Gen.N3_dect_dist_nnn_all c c3 fn s0 s1 s2 s3 s4 s5 eps
+      = DK3 c ⟨m00, m01, m02, m10, m11, m12, m20, m21, m22⟩ (M3.sym 0 0 0 0 0 0)
+        ++ DK3 c ⟨m00, m01, m02, m10, m11, m12, m20, m21, m22⟩ (M3.sym 1 1 1 1 1 1)
+        ++ M3.mandel3 c (iso ⟨m00, m01, m02, m10, m11, m12, m20, m21, m22⟩ 0 0 0)
+        ++ M3.mandel3 c (iso ⟨m00, m01, m02, m10, m11, m12, m20, m21, m22⟩ l0 l1 l2) := by
+  have s01 : l0 - l1 ≠ 0 := sub_ne_zero.mpr n01
+  have s10 : l1 - l0 ≠ 0 := sub_ne_zero.mpr n01.symm
+  have s02 : l0 - l2 ≠ 0 := sub_ne_zero.mpr n02
+  have s20 : l2 - l0 ≠ 0 := sub_ne_zero.mpr n02.symm
+  have s12 : l1 - l2 ≠ 0 := sub_ne_zero.mpr n12
+  have s21 : l2 - l1 ≠ 0 := sub_ne_zero.mpr n12.symm
+  have e01 : l0 / (l0 - l1) + l1 / (l1 - l0) = 1 := by field_simp; ring
+  have e02 : l0 / (l0 - l2) + l2 / (l2 - l0) = 1 := by field_simp; ring
+  have e12 : l1 / (l1 - l2) + l2 / (l2 - l1) = 1 := by field_simp; ring
+  rw [N3_dect_dist_nnn c c3 fn hc s0 s1 s2 s3 s4 s5 eps l0 l1 l2 m00 m01 m02 m10 m11 m12 m20 m21 m22 hl0 hl1 hl2 hM,
+    e01, e02, e12]
+
+'''
+
+
 if __name__ == "__main__":
     which = sys.argv[1]
     if which == "quick":
         body = "".join(unit1(n) for n in ["ppp", "nnn", "zzz", "pnz", "znp"])
         body += unit2("eq_pp") + unit2("dist_ppp") + unit2("dist_nnn")
-        body += unit3full("full_p") + unit3("p01_pp") + unit3("dist_ppp") + unit3("dist_nnn")
-        imports = "import TfelVerif.C05.GenDec12\nimport TfelVerif.C05.GenDec3full\nimport TfelVerif.C05.GenDec3p01\nimport TfelVerif.C05.GenDec3dist\n"
+        body += unit3full("full_p")
+        imports = "import TfelVerif.C05.GenDec12\nimport TfelVerif.C05.GenDec3full\n"
         sys.stdout.write(HDR % {"part": "", "imports": imports, "ns": "PropsDec"} + body + "end TfelVerif.C05.PropsDec\n")
+    elif which in ("Ta", "Tb", "Tc"):
+        body, imp = {"Ta": (unit3tab("p01_pp"), "GenTabP01pp"),
+                     "Tb": (unit3tab("dist_ppp") + MEANING_HDR + MEANING_PPP, "GenTabDistppp"),
+                     "Tc": (unit3tab("dist_nnn") + MEANING_HDR + MEANING_NNN, "GenTabDistnnn")}[which]
+        sys.stdout.write(HDR % {"part": " (3D, whole tables, one pattern per file)", "imports": "import TfelVerif.C05.%s\n" % imp, "ns": "PropsDec" + which}
+                         + body + "end TfelVerif.C05.PropsDec%s\n" % which)
     else:
         body = unit2("eq_pn") + unit2("eq_zz") + unit2("dist_pnp") + unit2("dist_zpn", zsign=("p", "p"))
-        body += unit3full("full_n") + unit3full("full_z") + unit3("p01_pn") + unit3("p02_nn") + unit3("p12_pp") + unit3("dist_pnz") + unit3("dist_npn")
-        imports = "import TfelVerif.C05.GenDec12\nimport TfelVerif.C05.GenDec3full\nimport TfelVerif.C05.GenDec3p01\nimport TfelVerif.C05.GenDec3p02\nimport TfelVerif.C05.GenDec3p12\nimport TfelVerif.C05.GenDec3dist\n"
+        body += unit3full("full_n") + unit3full("full_z")
+        imports = "import TfelVerif.C05.GenDec12\nimport TfelVerif.C05.GenDec3full\n"
         sys.stdout.write(HDR % {"part": " (thorough tier: more patterns)", "imports": imports, "ns": "PropsDecX"} + body + "end TfelVerif.C05.PropsDecX\n")
